@@ -271,6 +271,16 @@ pub fn emit_recv(recvs: &[Recv], r: &Recv, out: &mut String) {
                 }
             }
         }
+        Shape::Unit => {
+            out.push_str(&format!("pub struct {name};\n"));
+            out.push_str(&format!("impl ::vf_support::Dump for {name} {{ fn dump(&self) -> ::vf_support::Value {{ let mut o = ::vf_support::serde_json_map(); o.insert(String::from(\"{name}\"), ::vf_support::Value::Object(::vf_support::serde_json_map())); ::vf_support::Value::Object(o) }} }}\n"));
+            out.push_str(&format!("impl ::core::default::Default for {name} {{ fn default() -> Self {{ {name} }} }}\n"));
+        }
+        Shape::Newtype(t) => {
+            out.push_str(&format!("pub struct {name}(pub {});\n", rust_ty(recvs, t)));
+            out.push_str(&format!("impl ::vf_support::Dump for {name} {{ fn dump(&self) -> ::vf_support::Value {{ let mut o = ::vf_support::serde_json_map(); o.insert(String::from(\"{name}\"), ::vf_support::Dump::dump(&self.0)); ::vf_support::Value::Object(o) }} }}\n"));
+            out.push_str(&format!("impl ::core::default::Default for {name} {{ fn default() -> Self {{ {name}(::core::default::Default::default()) }} }}\n"));
+        }
         Shape::Enum(vars) => {
             out.push_str(&format!("pub enum {name} {{\n"));
             for (vi, v) in vars.iter().enumerate() {
@@ -434,6 +444,8 @@ pub fn emit_shard(recvs: &[Recv], ids: &[usize]) -> String {
         let mut tys: Vec<&Ty> = vec![];
         match &r.shape {
             Shape::Struct(fs) => tys.extend(fs.iter().map(|f| &f.ty)),
+            Shape::Unit => {}
+            Shape::Newtype(t) => tys.push(t),
             Shape::Enum(vs) => {
                 for v in vs {
                     match &v.body {
@@ -474,7 +486,7 @@ pub fn emit_shard(recvs: &[Recv], ids: &[usize]) -> String {
         emit_recv(recvs, &recvs[*id], &mut out);
         // FlattenMark for struct receivers that can be flatten members: mark the anchor (or nothing)
         let r = &recvs[*id];
-        if r.tr == Trait::Meta && !r.is_enum() && r.generics.is_empty() {
+        if r.tr == Trait::Meta && matches!(r.shape, Shape::Struct(_)) && r.generics.is_empty() {
             let stmt = match anchor_field(r) {
                 Some(a) => match r.fields()[a].ty {
                     Ty::Sc(Sc::I64) => format!("self.{} += 40_000_000;", r.fields()[a].rust),
